@@ -722,6 +722,9 @@ func nrListed(entries []*m.S, n int) int {
 //@   loop 1 invariant inLoopNoRoll: specRelNow(rep, old(wt), atoMS) < int(wrapDur) && relNowTime >= segs[0].EndTime ==> specNowTicks(a, rep, old(wt), atoMS) == wt.nowWraps*int(wrapDur) + int(relNowTime)
 //@   loop 1 invariant inLoopIdx: relNowTime >= segs[0].EndTime ==> segs[relNowIdx].EndTime <= relNowTime && (relNowIdx+1 < nrSegs ==> segs[relNowIdx+1].EndTime > relNowTime)
 //@   loop 1 invariant prevLoopNoRoll: specRelNow(rep, old(wt), atoMS) < int(wrapDur) && relNowTime < segs[0].EndTime ==> specNowTicks(a, rep, old(wt), atoMS) == (wt.nowWraps+1)*int(wrapDur) + int(relNowTime) && relNowIdx == nrSegs-1
+//@   store wt.nowWraps += requires nowLoopsFromNowRemainder: wt.nowWraps == old(wt).nowWraps + int(relNowTime / wrapDur) && relNowTime == uint64(old(wt).nowRelMS*rep.MediaTimescale/1000) + ato
+//@   store wt.startWraps += requires startLoopsFromStartRemainder: wt.startWraps == old(wt).startWraps + int(relStartTime / wrapDur) && relStartTime == uint64(old(wt).startRelMS*rep.MediaTimescale/1000) + ato
+//@   store relNowTime %= requires nowRemainderReduced: relNowTime < wrapDur
 //@   exit 2 requires edgeNr: lsi.nr == max(se.startNr, nowNr)
 //@   exit 2 requires edgeHasEnded: segs[0].StartTime == 0 && specRelNow(rep, old(wt), atoMS) < int(wrapDur) ==> specEnd(a, rep, nowNr) <= specNowTicks(a, rep, old(wt), atoMS)
 //@   loop 1 invariant nextNr: relNowIdx+1 == nrSegs ==> nowNr+1 == (wt.nowWraps+1)*nrSegs+0
